@@ -96,6 +96,7 @@ func (s *RPCServer) handleWS(ctx context.Context, w http.ResponseWriter, r *http
 		exiting:      make(chan struct{}),
 	}
 
+	vhook("srv.conn", wc)
 	if s.reverseClientBuilder != nil {
 		ctx, err = s.reverseClientBuilder(ctx, wc)
 		if err != nil {
